@@ -330,6 +330,10 @@ static void runOne(Ctx &ctx, int64_t i)
 
 } // namespace vh
 
+// Optional per-driver auxiliary entry point: `driver --seed S --tier T --aux <string>` calls it and exits
+// (used to compute a result in a fresh process).
+extern "C" __attribute__((weak)) void vh_aux(vh::Ctx &ctx, const char *arg);
+
 int main(int argc, char **argv)
 {
     using namespace vh;
@@ -344,6 +348,8 @@ int main(int argc, char **argv)
     int64_t to = -1;
     int64_t only = -1;
     bool count = false;
+    bool haveAux = false;
+    std::string aux;
     for (int i = 1; i < argc; ++i) {
         std::string a = argv[i];
         auto val = [&]() -> std::string { return (i + 1 < argc) ? argv[++i] : ""; };
@@ -361,7 +367,19 @@ int main(int argc, char **argv)
             count = true;
         } else if (a == "--verbose") {
             gVerbose = true;
+        } else if (a == "--aux") {
+            aux = val();
+            haveAux = true;
         }
+    }
+    if (haveAux) {
+        if (vh_aux != nullptr) {
+            vh_aux(ctx, aux.c_str());
+        }
+        if (!gScratch.empty()) {
+            rmTree(gScratch);
+        }
+        return 0;
     }
     int64_t n = vh_case_count(ctx.tier, ctx.seed);
     if (count) {
